@@ -51,6 +51,13 @@ func c01Configs() []drv.Cfg {
 	return []drv.Cfg{budgeted(on), budgeted(off), budgeted(strict), budgeted(div0), budgeted(min), budgeted(max), small}
 }
 
+// c01Hooked: cfgs[0] plus every host extension point installed as an observer / identity (drv.InstallNoopHooks).
+func c01Hooked() drv.Cfg {
+	c := budgeted(drv.AllOn())
+	c.Hooks = true
+	return c
+}
+
 func mayLoop(s string) bool {
 	return strings.Contains(s, "while") || strings.Contains(s, "func") || strings.Contains(s, "&") || strings.Contains(s, "^st")
 }
@@ -69,7 +76,8 @@ func c01Enumerate(tier string, seed int64, emit func(string, any)) {
 	}
 	// (i) token strings
 	two := cfgs[:2]
-	gen.StringsUpTo(gen.TokensFull, 2, func(s string) { one("tokens<=2/full", s, cfgs) })
+	hooked := c01Hooked()
+	gen.StringsUpTo(gen.TokensFull, 2, func(s string) { one("tokens<=2/full", s, append(cfgs[:len(cfgs):len(cfgs)], hooked)) })
 	if thorough {
 		gen.Strings(gen.TokensFull, 3, func(s string) { one("tokens=3/full", s, two) })
 		gen.Strings(gen.TokensTiny, 4, func(s string) { one("tokens=4/tiny", s, two[:1]) })
@@ -99,6 +107,7 @@ func c01Enumerate(tier string, seed int64, emit func(string, any)) {
 	if !thorough {
 		mcfg = []drv.Cfg{cfgs[0], cfgs[4], cfgs[6]}
 	}
+	mcfg = append(mcfg[:len(mcfg):len(mcfg)], hooked)
 	gen.Matrix(func(s string) {
 		for _, c := range mcfg {
 			emit("matrix", c01Case{Pre: gen.Prelude, Srcs: []string{s}, Cfg: c})
@@ -128,7 +137,7 @@ func c01Enumerate(tier string, seed int64, emit func(string, any)) {
 			{"[" + p + "]"}, {"xf(" + p + ")"}, {"1 ? (" + p + ") : 2"},
 		}
 		for _, srcs := range ctxs {
-			for _, c := range []drv.Cfg{cfgs[0], cfgs[4], cfgs[5]} {
+			for _, c := range []drv.Cfg{cfgs[0], cfgs[4], cfgs[5], hooked} {
 				emit("contexts", c01Case{Pre: c03Prelude, Srcs: srcs, Cfg: c})
 			}
 		}
@@ -143,6 +152,9 @@ func c01Enumerate(tier string, seed int64, emit func(string, any)) {
 		for _, sep := range []string{"", " "} {
 			for _, t := range c03Tails {
 				emit("program+tail", c01Case{Pre: c03Prelude, Srcs: []string{p + sep + t}, Cfg: cfgs[0]})
+				if sep == "" {
+					emit("program+tail", c01Case{Pre: c03Prelude, Srcs: []string{p + sep + t}, Cfg: hooked})
+				}
 			}
 			for _, t := range c03CompoundTails {
 				emit("program+tail", c01Case{Pre: c03Prelude, Srcs: []string{p + sep + t}, Cfg: cfgs[0]})
@@ -166,6 +178,7 @@ func c01Enumerate(tier string, seed int64, emit func(string, any)) {
 	// (v) histories: ordered pairs on one VM
 	gen.Histories(func(a, b string) {
 		emit("histories", c01Case{Srcs: []string{a, b}, Cfg: cfgs[0]})
+		emit("histories", c01Case{Srcs: []string{a, b}, Cfg: hooked})
 		if thorough {
 			emit("histories", c01Case{Srcs: []string{a, b}, Cfg: cfgs[4]})
 		}
